@@ -598,6 +598,22 @@ func (fv *FV) ratModel(st *State, call *ast.CallExpr, name string, sel *ast.Sele
 		wb(r)
 		pso := fv.ss.Of(fv.info.TypeOf(call))
 		return []Term{ptrMk(pso, r)}
+	case "SetFrac", "SetFrac64":
+		// z.SetFrac(a, b) sets z to a/b and panics on b == 0
+		_, wb := fv.ratRecv(st, sel.X)
+		var a, b Term
+		if name == "SetFrac" {
+			a, b = fv.bigArg(st, call.Args[0]), fv.bigArg(st, call.Args[1])
+		} else {
+			a, b = fv.evalExpr(st, call.Args[0]), fv.evalExpr(st, call.Args[1])
+		}
+		fv.assert(st, "div-zero", tNot(tEq(b, tInt(0))), call.Pos(), "big.Rat.SetFrac: denominator is not zero (SetFrac panics)")
+		r := fv.fresh("rat", SRat)
+		st.assume(T(sx(">", sx("rden", r.S), "0"), SBool))
+		st.assume(T(sx("=", sx("*", sx("rnum", r.S), b.S), sx("*", a.S, sx("rden", r.S))), SBool))
+		wb(r)
+		pso := fv.ss.Of(fv.info.TypeOf(call))
+		return []Term{ptrMk(pso, r)}
 	case "IsInt":
 		r, _ := fv.ratRecv(st, sel.X)
 		st.assume(T(sx(">", sx("rden", r.S), "0"), SBool))
